@@ -56,20 +56,24 @@ reg("C15", "The real refine_droplets / locate_droplets(refine=True) / EmulsionTi
     COMMON_NOTE + " Real OS scheduling/prefetch of ProcessPoolExecutor is covered only by the uncontrolled conformance pass.", "exhaustive enumeration of completion schedules under a controlled executor vs. serial reference")
 # additions of later rounds (appended to the level text)
 ADD = {
-    "C01": " Also: the same placements measured in length units 1e-9 ... 1e12.",
-    "C02": " Also: every image of a 3x4 cylindrical / anisotropic 3x3 grid analysed in sequence on one shared grid object.",
+    "C01": " Also: the same placements measured in length units 1e-9 ... 1e12; large diagonal pairs whose bounding boxes overlap.",
+    "C02": " Also: every image of a 3x4 cylindrical / anisotropic 3x3 grid analysed in sequence on one shared grid object; every union of two wrapped rectangles on 8x8; grids in other length units; periodic cylinders with one-decimal bounds and components centred exactly on the periodic boundary.",
     "C03": " Also: axisymmetric perturbed droplets on 3-d Cartesian grids and every ordered pair of amplitude counts rendered in one fresh process.",
-    "C04": " Also: candidates that cover no cell and perturbed candidates without modes.",
-    "C05": " Also: numeric thresholds off the mid level and ordered pairs/triples of images analysed with worker processes (controlled pool) in one process.",
+    "C04": " Also: candidates that cover no cell (also in a periodic image of the box), perturbed candidates without modes, one-sided automatic intensity levels.",
+    "C05": " Also: numeric thresholds off the mid level and ordered pairs/triples of images analysed with worker processes (controlled pool) in one process; harness-rendered droplets centred exactly on the periodic z boundary of cylinders.",
     "C06": " Also: time courses continued by append() without a time stamp.",
     "C07": " Also: time courses continued by append() without a time stamp; tracks obtained directly from stored fields (from_storage) on all histories of <= 3 frames must equal those of the analysed time course.",
-    "C09": " Also: tracking with a polar / spherical / cylindrical grid supplied and refine_droplet called directly on the droplet catalogue.",
+    "C09": " Also: tracking with a polar / spherical / cylindrical grid supplied, refine_droplet called directly on the droplet catalogue, a storage analysed again after the resulting time course was extended.",
+    "C10": " Also: lattices translated by 2^27 (positions far from the coordinate origin).",
+    "C11": " Also: all histories of <= 3 merges inside a 4-member emulsion (members in place, rows of the linked array, replacement, reversal) with conservation after every step.",
+    "C13": " Also: angle buffers overwritten in place between calls.",
+    "C18": " Also: annular grids with an own radial model of the result; every block on one grid object.",
     "C12": " Also: perturbed classes over the whole radius lattice (sphere limit, homogeneity in the radius, vanished droplets).",
-    "C15": " Also: a candidate exactly on the coordinate origin and a translated-box storage scenario in the call histories.",
+    "C15": " Also: a candidate exactly on the coordinate origin, the same candidate object listed twice, translated-box and other-periodicity storage scenarios in the call histories, and one 132-task refinement for which only the first 3 schedules are run (declared cap, see evidence caps_hit).",
     "C16": " Also: seven forms of the wave-number request (starting at 0, single value, descending, tuple, array).",
-    "C17": " Also: neighbouring tiny spacings (1e-10, 1e-9, 2e-9) and a knife-edge screen computed from an own FFT spectrum.",
+    "C17": " Also: neighbouring tiny spacings (1e-10, 1e-9, 2e-9), a knife-edge screen computed from an own FFT spectrum, droplet counting on partly periodic boxes.",
     "C19": " Also: request preludes (a perturbed-shape request on a grid of each family made first in the same process).",
-    "C20": " Also: bulk additions with consistency requested (list and collection arguments).",
+    "C20": " Also: bulk additions with consistency requested, constructor with caller-owned lists, checked additions to derived collections, item assignment, reversal, conversion of the time course to tracks.",
 }
 
 
